@@ -600,6 +600,27 @@ def timesField (w0 w1 : String) : String :=
 def startHour (sec : Int) : Int := if sec / 3600 < 12 then sec / 3600 else sec / 3600 - 12
 def startPm (sec : Int) : Bool := decide (12 ≤ sec / 3600)
 
+/-- the AM/PM branch of `_write_times` as a table: (operator, bound, then-arm is AM, subtract in then-arm, in else-arm) -/
+def cmpOp (op : Nat) (a b : Int) : Bool :=
+  match op with
+  | 0 => decide (a < b)
+  | 1 => decide (a ≤ b)
+  | 2 => decide (a > b)
+  | _ => decide (a ≥ b)
+
+def startHourT (t : Nat × Int × Bool × Int × Int) (sec : Int) : Int :=
+  if cmpOp t.1 (sec / 3600) t.2.1 then sec / 3600 - t.2.2.2.1 else sec / 3600 - t.2.2.2.2
+
+def startPmT (t : Nat × Int × Bool × Int × Int) (sec : Int) : Bool :=
+  if cmpOp t.1 (sec / 3600) t.2.1 then !t.2.2.1 else t.2.2.1
+
+/-- the branch table writes hour `h` (on the hour) in a form `_clock_time_to_sec` reads back -/
+def hourOk (t : Nat × Int × Bool × Int × Int) (h : Nat) : Bool :=
+  clockTimeToSec (startHourT t ((h : Int) * 3600)) 0 0 (startPmT t ((h : Int) * 3600)) == some ((h : Int) * 3600) &&
+  decide (0 ≤ startHourT t ((h : Int) * 3600))
+
+def branchOk (t : Nat × Int × Bool × Int × Int) : Bool := (List.range 24).all (hourOk t)
+
 end Wntr.InpTimes
 
 /-! ## `InpNorm` — the normalisation under which the oracle compares a model with its re-read copy
